@@ -872,6 +872,49 @@ def _first_field_of_trace(repo, tracer) -> Optional[str]:
 # ---------------------------------------------------------------------------
 
 
+def _r08d(chk, repo) -> None:
+    """SQLFluff adds stand-ins to the render context: dbt builtins, and for every name the template
+    mentions but the context lacks an UndefinedRecorder / DummyUndefined (which is truthy, not none
+    and renders as '').  Putting one over a name the user DID define -- for instance because its
+    value is None, 0 or '' -- makes the render differ from Jinja's own."""
+    m = repo.mod(JINJA)
+    n = 0
+    for q, f in m.functions():
+        cfg = None
+        for st in walk_local(f):
+            if not isinstance(st, ast.Assign):
+                continue
+            for t in st.targets:
+                if not (isinstance(t, ast.Subscript) and isinstance(t.value, ast.Name)):
+                    continue
+                name = t.value.id
+                # the context dict: a parameter or local that is the live context (by the annotation of the parameter
+                # or by being the value passed on as the render context); identified here by what it is filled with
+                v = st.value
+                stand_in = (
+                    (isinstance(v, ast.Call) and any(w in norm(v.func) for w in ("UndefinedRecorder", "DummyUndefined")))
+                    or (isinstance(v, ast.Subscript) and norm(v.value).isupper())  # e.g. DBT_BUILTINS[name]
+                )
+                if not stand_in:
+                    continue
+                n += 1
+                cfg = cfg or cfg_of(f)
+                key = norm(t.slice)
+                guarded = False
+                for e, pol in cfg.conditions(st):
+                    if isinstance(e, ast.Compare) and len(e.ops) == 1 and norm(e.left) == key and isinstance(e.comparators[0], ast.Name) and e.comparators[0].id == name:
+                        if (isinstance(e.ops[0], ast.NotIn) and pol) or (isinstance(e.ops[0], ast.In) and not pol):
+                            guarded = True
+                chk.require(
+                    guarded, "R08d", st,
+                    f"{q}: `{short(st, 70)}` puts a stand-in into the render context without a dominating test `{key} not in {name}`: a name the user defined "
+                    "(e.g. with the value None) is replaced, and `{{ x or 'd' }}` / `{% if x is none %}` render differently from Jinja",
+                    detail=f"{q}: stand-in for {key} only when the name is missing",
+                )
+    chk.count("R08d.stand_in_stores", n)
+    chk.floor("R08d.stand_in_stores", 2)
+
+
 def run(chk) -> None:
     repo = chk.repo
     chk.rule("R08a", "every Jinja environment keeps the default delimiters / no line statements and keep_trailing_newline=True, and the 'no markup' early return of process excludes every default opener "
@@ -885,6 +928,8 @@ def run(chk) -> None:
         "CR/CRLF in template data to newline_sequence, so on an un-normalised string the fast path and a Jinja render differ by construction."
     )
     chk.assumptions.append("jinja2's defaults are the documented ones ('{{', '{%', '{#', no line statements, keep_trailing_newline=False); environments built by dbt itself are outside the analysed tree.")
+    chk.rule("R08d", "what the user's context defines is what Jinja sees: after the context is assembled, a name is added to it (dbt builtins, undefined-variable recorders) only under a test that the name is not in it")
+    _r08d(chk, repo)
     cons = _r08a_envs(chk, repo)
     tracer, analyzer, src_attr, rf_attr = _r08b_tracer(chk, repo)
     _r08b_chain(chk, repo, tracer, analyzer, src_attr, rf_attr)
@@ -914,6 +959,18 @@ from ..selftest import Variant  # noqa: E402
 DBT = "plugins/sqlfluff-templater-dbt/sqlfluff_templater_dbt/templater.py"
 
 VARIANTS = [
+    Variant(
+        "undefined-tracking-replaces-none-valued-variables", JINJA,
+        "            if val not in live_context:\n                if ignore_templating:\n",
+        "            if live_context.get(val) is None:\n                if ignore_templating:\n",
+        "R08d", "_init_undefined_tracking", "seeded C08-1: a variable defined as None is treated as undefined",
+    ),
+    Variant(
+        "quiet-undefined-tracking-membership-negated-in", JINJA,
+        "            if val not in live_context:\n                if ignore_templating:\n",
+        "            if val in live_context:\n                continue\n            if True:\n                if ignore_templating:\n",
+        "QUIET", None, "membership test spelled as an early continue",
+    ),
     # ---- behaviour-preserving edits: the check must stay quiet --------------------
     Variant(
         "quiet-marker-test-hoisted-into-local", JINJA,
